@@ -188,7 +188,10 @@ impl Decoder for Codec {
                     if src.len() < props_len as usize {
                         return Ok(None);
                     }
-                    let payload_len = fixed.remaining_length - props_len;
+                    let payload_len = fixed
+                        .remaining_length
+                        .checked_sub(props_len)
+                        .ok_or(DecodeError::InvalidLength)?;
                     let mut buf = src.split_to(props_len as usize);
                     let publish = Publish::decode(&mut buf, fixed.first_byte, payload_len)?;
 
